@@ -4,6 +4,23 @@ import MirProofs.Lemmas.PyChord
 import MirProofs.Lemmas.Chord.Encode
 import MirProofs.Props.C10_Regex
 import MirProofs.Props.C10_Gen
+import MirProofs.Props.C10
+/-!
+  C10 (label functions) — the definitions of `chord.validate_chord_label`, `split`, `join`, `reduce_extended_quality`,
+  `scale_degree_to_bitmap`, `quality_to_bitmap`, `encode` and `rotate_bitmap_to_root` that
+  harness/translate/scalars_chordfn.py REGENERATES from mir_eval/chord.py on every run (MirGen/ChordFns.lean) equal the
+  hand-written models of `MirModel/Chord/{Split,Encode}.lean` (and `ChordCompare.rotate`) for ALL arguments — every string,
+  not only grammatical labels, exceptions included — and the headline statements of C10 hold of the translated functions.
+
+  What the tie rests on: the translator and its run-time library `MirModel/PyChord.lean` (the reading of `str.split(c)`,
+  `c.join`, `set`, `np.array`, `+=`, `v[i] = c` ...); `CHORD_RE.match` is NOT a new assumption: the generated
+  `validate_chord_label` runs the regenerated pattern `Mir.Gen.chordRe` on the verified matcher, and `accepts_eq_reMatch`
+  (from `C10_Regex.regex_iff_grammar`) identifies that with the grammar recogniser the hand models use.
+
+  The proofs are written against the SHAPE classes the translator produces, not against one text: renamed locals,
+  reordered independent statements, `dict.get` vs `in` + index, `match` vs `fullmatch`, a duplicated or merged `if`
+  leave them intact (`py_cases` splits on whatever both sides branch on until they coincide).
+-/
 set_option linter.unusedSimpArgs false
 namespace Mir.C10.GenFns
 open Mir Mir.Chord Mir.PyChord
@@ -33,7 +50,7 @@ theorem quality_to_bitmap_eq_model (q : List Char) :
   rcases Option.eq_none_or_eq_some (List.lookup q MirGen.Tables.qualities) with h | ⟨v, h⟩ <;> simp only [h] <;> rfl
 
 /-- the part of `scale_degree_to_bitmap` after the `*` prefix has been read -/
-theorem bitmap_tail (t : List Char) (m : Bool) (n : Nat) (hn : 0 < n) (sign : Int) (k : Int → Py Vec)
+theorem bitmap_tail (t : List Char) (m : Bool) (n : Nat) (sign : Int) (k : Int → Py Vec)
     (hk : ∀ idx, k idx =
       if idx < (n : Int) ∨ m = true then .ok ((List.replicate n (0 : Int)).set (idx % (n : Int)).toNat sign)
       else .ok (List.replicate n 0)) :
@@ -72,9 +89,9 @@ theorem scale_degree_to_bitmap_eq_model (s : List Char) (m : Bool) (n : Nat) (hn
   simp only [Mir.PyS.startsWith_single, Mir.PyS.stripChar, Mir.C10.Gen.scale_degree_to_semitone_eq, decide_eq_true_eq]
   by_cases h : s.head? = some '*'
   · simp only [h, if_true]
-    exact bitmap_tail _ m n hn (-1) _ (fun idx => key (-1) idx)
+    exact bitmap_tail _ m n (-1) _ (fun idx => key (-1) idx)
   · simp only [h, if_false]
-    exact bitmap_tail _ m n hn 1 _ (fun idx => key 1 idx)
+    exact bitmap_tail _ m n 1 _ (fun idx => key 1 idx)
 
 /-- `validate_chord_label(x); return x` against the hand-written `match`, up to how the string was assembled -/
 theorem validate_then_return (x y : List Char) (h : x = y) :
@@ -182,5 +199,174 @@ theorem encode_eq_model (s : List Char) (r sb : Bool) : Mir.Gen.chord.encode s r
     listSet_of_range 1 hr.1 (by omega)
   simp only [hget, hset2, ok_bind]
   by_cases hz : (threshold bm').getD (b % 12).toNat 0 = 0 <;> cases sb <;> simp [hz, pure, Except.pure]
+
+/-- `chord.rotate_bitmap_to_root` as translated (`np.nonzero` / fancy-index assignment) is the model used by C11's mirex
+    comparison, for every bitmap with at least 12 entries (the documented shape is `(12,)`) and EVERY integer root -/
+theorem rotate_bitmap_to_root_eq_model (bm : List Int) (root : Int) (h : 12 ≤ bm.length) :
+    Mir.Gen.chord.rotate_bitmap_to_root bm root = .ok (Mir.ChordCompare.rotate bm root) := by
+  unfold Mir.Gen.chord.rotate_bitmap_to_root Mir.ChordCompare.rotate
+  simp only [decide_true, if_true, vecPut, vecModLit, vecAddInt, nonzero1, List.map_map]
+  have hfil : (List.range bm.length).filter (fun i => bm.getD i 0 != 0) =
+      (List.range bm.length).filter (Mir.ChordCompare.nzAt bm) := by
+    apply List.filter_congr; intro i _; rw [nzAt_eq]
+  rw [hfil]
+  have hrange : ∀ i ∈ ((List.range bm.length).filter (Mir.ChordCompare.nzAt bm)).map
+      ((fun x => x % 12) ∘ (fun x => x + root) ∘ fun (i : Nat) => (i : Int)), 0 ≤ i ∧ i < ((zerosLike bm).length : Int) := by
+    intro i hi
+    obtain ⟨k, _, rfl⟩ := List.mem_map.1 hi
+    have := emod12_range ((k : Int) + root)
+    simp only [Function.comp, zerosLike, List.length_replicate]
+    omega
+  rw [mapM_normIndex _ _ hrange]
+  simp only [zerosLike_getD, zerosLike, List.length_replicate]
+  congr 1
+  apply List.map_congr_left
+  intro j _
+  rw [contains_toNat _ (fun i hi => (hrange i hi).1)]
+  have hz := zerosLike_getD bm j
+  unfold zerosLike at hz
+  rw [hz]
+  rfl
+
+/-- `scale_degree_to_bitmap` for the lengths no caller uses (`length <= 0`): `[0] * length` is empty, so an in-range
+    degree raises ZeroDivisionError (`% 0`) or IndexError (store into an empty list), anything else returns `[]` -/
+theorem scale_degree_to_bitmap_nonpos (s : List Char) (m : Bool) (n : Int) (hn : n ≤ 0) :
+    Mir.Gen.chord.scale_degree_to_bitmap s m n =
+      match scaleDegreeToSemitone (degreeSign s).2 with
+      | .error e => .error e
+      | .ok idx =>
+        if idx < n ∨ m = true then (if n = 0 then .error .zeroDivision else .error .indexError) else .ok [] := by
+  have key : ∀ (sign idx : Int),
+      (if (decide (idx < n) || m) = true then do
+          let i ← pyMod idx n
+          let em ← listSet (listRepeat (0 : Int) n) i sign
+          pure (npArray em)
+        else pure (npArray (listRepeat (0 : Int) n)) : Py Vec) =
+      if idx < n ∨ m = true then (if n = 0 then .error .zeroDivision else .error .indexError) else .ok [] := by
+    intro sign idx
+    simp only [listRepeat_nonpos (0 : Int) hn, npArray, Bool.or_eq_true, decide_eq_true_eq, listSet_nil]
+    split
+    · by_cases h0 : n = 0
+      · subst h0; simp only [pyMod_zero, error_bind, if_true]
+      · have : pyMod idx n = .ok (Int.fmod idx n) := by unfold pyMod; rw [if_neg h0]
+        simp only [this, ok_bind, error_bind, h0, if_false]
+    · rfl
+  have tail : ∀ (t : List Char) (sign : Int) (k : Int → Py Vec)
+      (_ : ∀ idx, k idx = if idx < n ∨ m = true then (if n = 0 then .error .zeroDivision else .error .indexError) else .ok []),
+      (do let i ← scaleDegreeToSemitone t; k i) =
+        match scaleDegreeToSemitone t with
+        | .error e => .error e
+        | .ok idx => if idx < n ∨ m = true then (if n = 0 then .error .zeroDivision else .error .indexError) else .ok [] := by
+    intro t sign k hk
+    cases scaleDegreeToSemitone t with
+    | error e => rfl
+    | ok idx => exact hk idx
+  unfold Mir.Gen.chord.scale_degree_to_bitmap degreeSign
+  simp only [Mir.PyS.startsWith_single, Mir.PyS.stripChar, Mir.C10.Gen.scale_degree_to_semitone_eq, decide_eq_true_eq]
+  by_cases h : s.head? = some '*'
+  · simp only [h, if_true]
+    exact tail _ (-1) _ (fun idx => key (-1) idx)
+  · simp only [h, if_false]
+    exact tail _ 1 _ (fun idx => key 1 idx)
+
+/-- a bitmap shorter than 12 entries can make the fancy-index store raise IndexError (NumPy's own bounds check) -/
+example : Mir.Gen.chord.rotate_bitmap_to_root [0, 0, 1] 5 = .error .indexError := by decide
+
+/-! ## The headline statements of C10, on the functions as translated -/
+
+/-- `validate_chord_label` returns or raises InvalidChordException, nothing else, for EVERY string -/
+theorem validate_chord_label_total (s : List Char) :
+    Mir.Gen.chord.validate_chord_label s = .ok () ∨ Mir.Gen.chord.validate_chord_label s = .error .invalidChord := by
+  rw [validate_chord_label_eq_model]; exact Mir.C10.validate_total s
+
+/-- acceptance coincides with the documented Harte syntax -/
+theorem validate_chord_label_iff_grammar (s : List Char) :
+    Mir.Gen.chord.validate_chord_label s = .ok () ↔ ∃ l : Label, l.render = s := by
+  rw [validate_chord_label_eq_model]; exact Mir.C10.validate_iff_grammar s
+
+/-- `split` returns or raises InvalidChordException on EVERY string (the 2-target unpackings never trip) -/
+theorem split_total (s : List Char) (r : Bool) :
+    (∃ p, Mir.Gen.chord.split s r = .ok p) ∨ Mir.Gen.chord.split s r = .error .invalidChord := by
+  rw [split_eq_model]; exact Mir.C10.split_total s r
+
+/-- `encode` returns or raises InvalidChordException on EVERY string and both flags: no TypeError from
+    `None % 12`, no IndexError from the vector stores, no ValueError from `+=`, no KeyError -/
+theorem encode_total (s : List Char) (r sb : Bool) :
+    (∃ e, Mir.Gen.chord.encode s r sb = .ok e) ∨ Mir.Gen.chord.encode s r sb = .error .invalidChord := by
+  rw [encode_eq_model]; exact Mir.C10.encode_total s r sb
+
+/-- every successful encoding other than N / X: root and bass in 0..11, a 12-element 0/1 bitmap containing the bass -/
+theorem encode_range (s : List Char) (r sb : Bool) (root bass : Int) (bm : List Int)
+    (hN : s ≠ ['N']) (hX : s ≠ ['X']) (h : Mir.Gen.chord.encode s r sb = .ok (root, bm, bass)) :
+    0 ≤ root ∧ root < 12 ∧ bm.length = 12 ∧ (∀ b ∈ bm, b = 0 ∨ b = 1) ∧
+      bm[bass.toNat]? = some 1 ∧ 0 ≤ bass ∧ bass < 12 := by
+  rw [encode_eq_model] at h; exact Mir.C10.encode_range s r sb root bass bm hN hX h
+
+/-- N and X encode to their reserved sentinels -/
+theorem encode_sentinels (r sb : Bool) :
+    Mir.Gen.chord.encode ['N'] r sb = .ok (-1, List.replicate 12 0, -1) ∧
+    Mir.Gen.chord.encode ['X'] r sb = .ok (-1, List.replicate 12 (-1), -1) := by
+  rw [encode_eq_model, encode_eq_model]; exact Mir.C10.sentinels r sb
+
+/-- the documented encoding, for every derivable label -/
+theorem encode_semantics (l : Label) (r sb : Bool) : Mir.Gen.chord.encode l.render r sb = specEncode l r sb := by
+  rw [encode_eq_model]; exact Mir.C10.encode_semantics l r sb
+
+/-- join ∘ split preserves the encoding, for EVERY order in which the degree set that `split` returned is handed on -/
+theorem join_split_encode (l : Label) (hN : l ≠ .N) (hX : l ≠ .X) (r sb : Bool)
+    (root q : List Char) (degs : List (List Char)) (bass : List Char)
+    (hs : Mir.Gen.chord.split l.render r = .ok (root, q, degs, bass))
+    (degs' : List (List Char)) (hp : degs'.Perm degs) :
+    ∃ j, Mir.Gen.chord.join root q (some degs') bass = .ok j ∧
+      Mir.Gen.chord.encode j r sb = Mir.Gen.chord.encode l.render r sb := by
+  rw [split_eq_model] at hs
+  obtain ⟨j, h1, h2⟩ := Mir.C10.join_split_encode l hN hX r sb root q degs bass hs degs' hp
+  exact ⟨j, by rw [join_eq_model]; exact h1, by rw [encode_eq_model, encode_eq_model]; exact h2⟩
+
+/-- the `for scale_degree in scale_degrees` loop of `encode` runs over a SET: as translated it visits the duplicate-free
+    list in insertion order; neither its value nor the exception it raises depends on that order -/
+theorem encode_loop_order_irrelevant (r : Bool) (bm : List Int) (h : bm.length = 12) (ds ds' : List (List Char))
+    (hp : ds'.Perm ds) :
+    Mir.Gen.chord.encode_loop1 r bm ds' = Mir.Gen.chord.encode_loop1 r bm ds := by
+  rw [encode_loop_eq r ds' bm h, encode_loop_eq r ds bm h]; exact addDegrees_perm_total r bm h hp
+
+/-! ## non-vacuity -/
+
+example : Mir.Gen.chord.split "A:13(3,3)/b7".toList true =
+    .ok ("A".toList, "7".toList, ["3".toList, "9".toList, "11".toList, "13".toList], "b7".toList) := by
+  show (_ : Py Parts) = _; decide +kernel
+example : Mir.Gen.chord.split "C".toList false = .ok ("C".toList, "maj".toList, [], "1".toList) := by
+  show (_ : Py Parts) = _; decide +kernel
+example : Mir.Gen.chord.split "A:(3)".toList false = .ok ("A".toList, [], ["3".toList], "1".toList) := by
+  show (_ : Py Parts) = _; decide +kernel
+example : Mir.Gen.chord.split "C(*3)".toList false = .error .invalidChord := by
+  show (_ : Py Parts) = _; decide +kernel
+example : Mir.Gen.chord.split "C\n".toList false = .error .invalidChord := by
+  show (_ : Py Parts) = _; decide +kernel
+
+example :
+    Mir.Gen.chord.encode "C:min7(*5,9)/b3".toList false false = .ok (0, [1, 0, 0, 1, 0, 0, 0, 0, 0, 0, 1, 0], 3) ∧
+    Mir.Gen.chord.encode "C:maj/2".toList false true = .error .invalidChord ∧
+    Mir.Gen.chord.encode "C:aug7".toList false false = .error .invalidChord ∧
+    Mir.Gen.chord.encode "B#:13".toList true false = .ok (0, [1, 0, 1, 0, 1, 1, 0, 1, 0, 1, 1, 0], 0) := by
+  decide +kernel
+
+example :
+    Mir.Gen.chord.join "A".toList "7".toList (some ["13".toList, "9".toList]) "b7".toList = .ok "A:7(13,9)/b7".toList ∧
+    Mir.Gen.chord.join "A".toList [] none "1".toList = .ok "A".toList ∧
+    Mir.Gen.chord.join "X".toList "maj".toList (some []) "1".toList = .error .invalidChord := by decide +kernel
+
+example :
+    Mir.Gen.chord.scale_degree_to_bitmap "*b3".toList false 12 = .ok [0, 0, 0, -1, 0, 0, 0, 0, 0, 0, 0, 0] ∧
+    Mir.Gen.chord.scale_degree_to_bitmap "9".toList false 12 = .ok (List.replicate 12 0) ∧
+    Mir.Gen.chord.scale_degree_to_bitmap "9".toList true 12 = .ok [0, 0, 1, 0, 0, 0, 0, 0, 0, 0, 0, 0] ∧
+    Mir.Gen.chord.scale_degree_to_bitmap "3".toList false 0 = .ok [] ∧
+    Mir.Gen.chord.scale_degree_to_bitmap "3".toList true 0 = .error .zeroDivision ∧
+    Mir.Gen.chord.scale_degree_to_bitmap "3".toList true (-2) = .error .indexError ∧
+    Mir.Gen.chord.quality_to_bitmap "hdim7".toList = .ok [1, 0, 0, 1, 0, 0, 1, 0, 0, 0, 1, 0] ∧
+    Mir.Gen.chord.quality_to_bitmap "aug7".toList = .error .invalidChord ∧
+    Mir.Gen.chord.reduce_extended_quality "min11".toList = .ok ("min7".toList, ["9".toList, "11".toList]) ∧
+    Mir.Gen.chord.rotate_bitmap_to_root [1, 0, 0, 0, 1, 0, 0, 1, 0, 0, 0, 0] 7 = .ok [0, 0, 1, 0, 0, 0, 0, 1, 0, 0, 0, 1] := by
+  decide +kernel
 
 end Mir.C10.GenFns
